@@ -301,7 +301,7 @@ fn may_copy_file_onto_itself(c: &Case) -> bool {
     };
     for r in &c.redirs {
         match &r.operand {
-            Operand::Path(p) => opens.push((p.text().to_string(), matches!(r.op, Op::In | Op::InOut), r.op != Op::In)),
+            Operand::Path(p) => opens.push((p.file_name().to_string(), matches!(r.op, Op::In | Op::InOut), r.op != Op::In)),
             Operand::Fd(n) => add_init(*n, &mut opens),
             _ => {}
         }
@@ -813,6 +813,9 @@ fn make_setup(c: &Case, script: &str) -> vsys::Setup {
     setup.files.push(("f1".into(), vsys::FileSpec::Regular { content: F1_CONTENT.into(), mode: 0o644, exec: false }));
     setup.files.push(("f2".into(), vsys::FileSpec::Regular { content: F2_CONTENT.into(), mode: 0o644, exec: false }));
     setup.files.push(("d".into(), vsys::FileSpec::Dir { mode: 0o755 }));
+    setup.files.push(("l1".into(), vsys::FileSpec::Symlink { target: "f1".into() }));
+    setup.files.push(("l2".into(), vsys::FileSpec::Symlink { target: "n2".into() }));
+    setup.files.push(("ld".into(), vsys::FileSpec::Symlink { target: "d".into() }));
     if c.via_file {
         setup.files.push((SCRIPT_PATH.into(), vsys::FileSpec::Regular { content: script.into(), mode: 0o644, exec: false }));
         setup.argv = vec!["yash".into(), SCRIPT_PATH.into()];
@@ -1313,6 +1316,9 @@ fn arb_path() -> impl Strategy<Value = PathKind> {
         1 => Just(PathKind::MissingDir),
         2 => Just(PathKind::ThroughFile),
         1 => Just(PathKind::Dir),
+        2 => Just(PathKind::LinkF1),
+        1 => Just(PathKind::LinkN2),
+        1 => Just(PathKind::LinkDirNew),
     ]
 }
 
@@ -1442,10 +1448,10 @@ pub fn run(ctx: &Ctx, st: &mut Stats) {
         serde_json::json!({"driver": "single", "kinds": nk, "operator_operand_pairs": nc, "targets": nt, "noclobber": 2, "cases": total}),
     );
 
-    let n = ctx.tier.pick(300_000, 10_000_000);
+    let n = ctx.tier.pick(700_000, 10_000_000);
     LIST.run_random(ctx, st, n, arb_case);
 
-    let n = ctx.tier.pick(4_000, 100_000);
+    let n = ctx.tier.pick(8_000, 100_000);
     SWEEP.run_random(ctx, st, n, arb_sweep_case);
     st.add_extra_count("sweep_shell_runs", n * 2 * (LIMITS.end() - LIMITS.start() + 1) as u64);
     st.extra.insert(
